@@ -20,7 +20,7 @@ EXPLANATION = (
     "Interpreter::interpret (in rusty_basic and the value crates it calls) are each audited, and the "
     "implicit ones (bounds check of an index expression, zero check of integer / and %) are proved from "
     "their dominating comparisons or audited; (R7) the error path of the fetch-execute loop unwinds the "
-    "context states a failing statement had opened (shared with C05.R6); (R11) after every user block the next emitted instruction is preceded by a resume point (shared with C05.R2): RESUME NEXT after the last statement of the main module must not run into a subprogram body.")
+    "context states a failing statement had opened (shared with C05.R6); (R11) after every user block the next emitted instruction is preceded by a resume point (shared with C05.R2): RESUME NEXT after the last statement of the main module must not run into a subprogram body; (R12) array subscripts and bounds are refused unless castable to a numeric type (shared with C12.R9), so nothing unresolved reaches the generator.")
 NOT_DECIDED = ["panic-freedom in general (arithmetic overflow in the debug profile, stack depth, panics inside std)"]
 
 PCL = labels.PCL
@@ -537,5 +537,8 @@ def run(ctx):
     r10_child_helper_on_own_node(ctx)
     # a resume point recorded at the wrong place lets RESUME NEXT run into code that was never called
     c05.r2_mark_after_block(ctx, "C08.R11")
+    # what the checker lets through as an array subscript the generator must be able to resolve
+    from . import c12
+    c12.r9_subscripts_are_numeric(ctx, "C08.R12")
     from . import panics
     panics.r_audit(ctx, "C08.R6", scope="backend")
